@@ -20,13 +20,15 @@ Packet(kind, tag) ==
     [] kind = "arp" -> P!EthEl("e", 0, 0, 0, <<8, 6>>, P!ArpEl("p", tag, 1), tag).tree
     [] kind = "ip6icmp" -> P!EthEl("e", 0, 0, 0, <<134, 221>>, P!Ip6El("p", 6, 8, 4660, <<>>, 58, tag, 16, 0, 0, FALSE), tag).tree
     [] kind = "ip6ext" -> P!EthEl("e", 5, 1, 7, <<134, 221>>, P!Ip6El("p", 6, 8, 4660, <<"hbh", "rt", "fr">>, 17, tag, 9, 2, 77, TRUE), tag).tree
+    [] kind = "ip4igmp" ->        \* IP protocol 2 is not demultiplexed: an IGMPv3 report stays opaque payload bytes
+         P!EthEl("e", 0, 0, 0, <<8, 0>>, P!Ip4Raw("p", 2, EncPkt(P!Igmp3ReportEl("g", <<P!GroupRecEl("r1", 1, 2, 34)>>, 36).tree), tag), tag).tree
     [] kind = "ip4frag" ->        \* a non-first fragment (fragment offset 185, more fragments): the payload is still decoded by protocol
          P!EthEl("e", 0, 0, 0, <<8, 0>>, P!Ip4El("p", 4, 5, 0, 0, 1, 185, 17, tag, 16), tag).tree
     [] kind = "ip6hbhbig" ->      \* a 328-byte hop-by-hop header (41 options): room for an option length byte to be corrupted to any value
          P!EthEl("e", 0, 0, 0, <<134, 221>>, P!Ip6With("p", <<P!HbhBig("h", 17, 40, tag)>>, <<>>, 0, 17, tag, 5), tag).tree
     [] kind = "ip6hbh" -> P!EthEl("e", 0, 0, 0, <<134, 221>>, P!Ip6El("p", 6, 0, 1, <<"hbh">>, 58, tag, 4, 3, 0, FALSE), tag).tree
     [] kind = "lldp" -> P!EthEl("e", 0, 0, 0, <<136, 204>>, P!BufEl("p", V(tag, 40)), tag).tree
-PacketKinds == {"ip4udp", "ip4icmp-tagged", "ip4tcp", "arp", "ip6icmp", "ip6ext", "ip6hbh", "ip6hbhbig", "ip4frag", "lldp"}
+PacketKinds == {"ip4udp", "ip4icmp-tagged", "ip4tcp", "arp", "ip6icmp", "ip6ext", "ip6hbh", "ip6hbhbig", "ip4frag", "ip4igmp", "lldp"}
 FlowStatsTree(ks, is, tag) ==
   [T |-> "FlowStats", TableId |-> V(tag, 1), DurationSec |-> V(tag + 1, 4), DurationNSec |-> V(tag + 2, 4), Priority |-> V(tag + 3, 2),
    IdleTimeout |-> V(tag + 4, 2), HardTimeout |-> V(tag + 5, 2), Flags |-> V(tag + 6, 2), Cookie |-> V(tag + 7, 8), PacketCount |-> V(tag + 8, 8),
